@@ -1,35 +1,45 @@
 open M_sess
 (*#include convz*)
 (* dec <v13> <server> <hs> <rsec> <wsec> <err> <closed> <edskip> <edseen> <edmax> <limbo> <ignored> <ce> <se> <ccslast> <nstpending>
-       <hdr> <outer> <short> <prot> <inner> <ccsok> <alertok> <lvl> <desc> <overflow> <empty> <len> <decfail>
+           <dtls> <xepoch> <pccs> <adx>                                                            (20 state fields)
+       <hdr> <outer> <short> <prot> <inner> <ccsok> <alertok> <lvl> <desc> <overflow> <empty> <len> <decfail> <epoch> <replay>
        <okind> <h'> <r'> <w'> <v'> <resp> <odesc>
-   enc <14 state fields> *)
+   enc  <20 state fields>
+   gout <20 state fields> <pending> <flightdone> <resumed> <cauth>      DTLS: matrixDtlsGetOutdata *)
 let bt s = (s = "1")
 let zi s = z_of_int (int_of_string s)
 let mkst a i = { v13 = bt a.(i); server = bt a.(i+1); hs = zi a.(i+2); rsec = bt a.(i+3); wsec = bt a.(i+4); err = bt a.(i+5);
                  closed = bt a.(i+6); ed_skip = bt a.(i+7); ed_seen = zi a.(i+8); ed_max = zi a.(i+9); limbo = bt a.(i+10);
-                 ignored = zi a.(i+11); cl_early = bt a.(i+12); sv_early = bt a.(i+13); ccs_last = bt a.(i+14); nst_pending = bt a.(i+15) }
+                 ignored = zi a.(i+11); cl_early = bt a.(i+12); sv_early = bt a.(i+13); ccs_last = bt a.(i+14); nst_pending = bt a.(i+15);
+                 dtls = bt a.(i+16); xepoch = zi a.(i+17); pccs = bt a.(i+18); adx = bt a.(i+19) }
 let show_out o = match o with
   | Refuse -> "Refuse" | Deliver -> "Deliver" | AlertOut d -> Printf.sprintf "AlertOut:%d" (int_of_z d)
   | AlertIn (l, d) -> Printf.sprintf "AlertIn:%d:%d" (int_of_z l) (int_of_z d) | Ignored -> "Ignored"
   | Handshake r -> Printf.sprintf "Handshake:%d" (b2i r)
+  | Resend -> "Resend"
 let show_st s = Printf.sprintf "v=%d hs=%s R=%d W=%d E=%d C=%d eds=%d ig=%d lb=%d" (b2i s.v13) (if s.err then "-" else string_of_int (int_of_z s.hs)) (b2i s.rsec) (b2i s.wsec)
                   (b2i s.err) (b2i s.closed) (int_of_z s.ed_seen) (int_of_z s.ignored) (b2i s.limbo)
+                ^ (if s.dtls then Printf.sprintf " xe=%d pc=%d ax=%d" (int_of_z s.xepoch) (b2i s.pccs) (b2i s.adx) else "")
 let () = iter_lines (fun l ->
   let a = Array.of_list (split_ws l) in
   if a.(0) = "dec" then begin
     let s = mkst a 1 in
-    let r = { r_hdr = (match a.(17) with "ok" -> HdrOk | "type" -> HdrBadType | "ver" -> HdrBadVer | _ -> HdrBadLen);
-              r_outer = zi a.(18); r_short_alert = bt a.(19);
-              r_prot = (match a.(20) with "plain" -> Plain | "good" -> Good | _ -> Bad);
-              r_inner = zi a.(21); r_ccs_ok = bt a.(22); r_alert_ok = bt a.(23); r_alert_level = zi a.(24); r_alert_desc = zi a.(25);
-              r_overflow = bt a.(26); r_empty = bt a.(27); r_len = zi a.(28); r_decfail = bt a.(29) } in
-    let o = (match a.(30) with
-             | "ok" -> HsOk (zi a.(31), bt a.(32), bt a.(33), bt a.(34), bt a.(35))
-             | "fatal" -> HsFatal (zi a.(36))
-             | "fb" -> HsFallback (zi a.(31), bt a.(32), bt a.(33), bt a.(35))
-             | _ -> HsFallbackFatal (zi a.(36))) in
+    let r = { r_hdr = (match a.(21) with "ok" -> HdrOk | "type" -> HdrBadType | "ver" -> HdrBadVer | "trunc" -> HdrTrunc | _ -> HdrBadLen);
+              r_outer = zi a.(22); r_short_alert = bt a.(23);
+              r_prot = (match a.(24) with "plain" -> Plain | "good" -> Good | _ -> Bad);
+              r_inner = zi a.(25); r_ccs_ok = bt a.(26); r_alert_ok = bt a.(27); r_alert_level = zi a.(28); r_alert_desc = zi a.(29);
+              r_overflow = bt a.(30); r_empty = bt a.(31); r_len = zi a.(32); r_decfail = bt a.(33);
+              r_epoch = zi a.(34); r_replay = (match a.(35) with "dup" -> Dup | _ -> Fresh) } in
+    let o = (match a.(36) with
+             | "ok" -> HsOk (zi a.(37), bt a.(38), bt a.(39), bt a.(40), bt a.(41))
+             | "fatal" -> HsFatal (zi a.(42))
+             | "fb" -> HsFallback (zi a.(37), bt a.(38), bt a.(39), bt a.(41))
+             | "rt" -> HsRetransmit
+             | _ -> HsFallbackFatal (zi a.(42))) in
     let (s', out) = decode s r o in
     show_out out ^ " " ^ show_st s'
   end else if a.(0) = "enc" then Printf.sprintf "ok=%d" (b2i (encode_app_ok (mkst a 1)))
+  else if a.(0) = "gout" then
+    (match dtls_getout (mkst a 1) (bt a.(21)) (bt a.(22)) (bt a.(23)) (bt a.(24)) with
+     | GoNone -> "none" | GoData -> "data" | GoResend -> "resend" | GoRefused -> "refused")
   else "BADCASE")
